@@ -1,4 +1,190 @@
 package main
 
-// runWitnesses is filled in by witness_impl.go (thorough tier sensitivity witnesses).
-var runWitnesses = func(res *runResult, prop, repo string) {}
+import (
+	"fmt"
+	"os"
+	"os/exec"
+	"path/filepath"
+	"sort"
+	"strings"
+	"sync"
+)
+
+// Sensitivity witnesses (thorough tier): small edits to the real source files, applied in memory through the loader's
+// overlay (nothing is written under /repo), each in its own subprocess. Each must make the named rule fire. They are
+// evidence about the checker's sensitivity, reported in the evidence file; they never change a property's verdict.
+// An edit whose anchor text no longer exists in the current tree is skipped and reported as skipped.
+type witness struct {
+	Prop, File, Old, New, Rule, What string
+}
+
+var witnesses = []witness{
+	// C01
+	{"C01", "pkg/ja3/ja3.go", "if !greaseValues[uint16(hello.CipherSuites[lastElem])] {", "if true {", "C01.R3", "last cipher not GREASE-filtered"},
+	{"C01", "pkg/ja3/ja3.go", "for _, e := range hello.SupportedGroups[:lastElem] {", "for _, e := range hello.SupportedGroups[1:lastElem] {", "C01.R3", "first group skipped"},
+	{"C01", "pkg/ja3/ja3.go", "0x8a8a: true, 0x9a9a: true,", "0x8a8a: true, 0x9a9b: true,", "C01.R4", "GREASE table entry wrong"},
+	{"C01", "pkg/fingerprint/fingerprint.go", "hellobasic.Unmarshal(data.ClientHelloRecord)", "hellobasic.Unmarshal(data.ConnectionState.TLSUnique)", "C01.R", "JA3 computed from other connection data"},
+	{"C01", "fingerproxy.go", `fp.NewFingerprintHeaderInjector("X-JA3-Fingerprint", fp.JA3Fingerprint)`, `fp.NewFingerprintHeaderInjector("X-JA3-Fingerprint", fp.JA4Fingerprint)`, "C01.R1", "JA3 header bound to the JA4 function"},
+	// C02
+	{"C02", "pkg/ja4/ja4.go", "j.unmarshalCipherSuites(chs, false)", "j.unmarshalCipherSuites(chs, true)", "C02.R1", "ciphers keep original order"},
+	{"C02", "pkg/ja4/helper.go", `return fmt.Sprintf("%x", sha.Sum(nil))[:12]`, `return fmt.Sprintf("%x", sha.Sum(nil))[:16]`, "C02.R5", "hash truncated to 16"},
+	{"C02", "pkg/ja4/helper.go", "return ((v >> 8) == v&0xff) && v&0xf == 0xa", "return v&0x0f0f == 0x0a0a", "C02.R6", "GREASE predicate loosened"},
+	{"C02", "pkg/ja4/types.go", `func (x numberOfExtensions) String() string   { return fmt.Sprintf("%02d", min(x, 99)) }`, `func (x numberOfExtensions) String() string   { return fmt.Sprintf("%02d", x) }`, "C02.R5", "extension count not capped"},
+	// C03
+	{"C03", "pkg/metadata/http2.go", "int(p.Weight)+1", "int(p.Weight)", "C03.R4", "weight not +1"},
+	{"C03", "pkg/metadata/http2.go", "uint(l) < maxPriorityFrames", "uint(l) <= maxPriorityFrames", "C03.R4", "min computed with <="},
+	{"C03", "pkg/http2/server.go", "if md.HTTP2Frames.WindowUpdateIncrement == 0 {", "if true {", "C03.R2", "window update captures the last frame"},
+	{"C03", "pkg/http2/server.go", "StreamDep: f.PriorityParam.StreamDep,", "StreamDep: f.StreamID,", "C03.R3", "priority literal fields swapped"},
+	{"C03", "pkg/fingerprint/fingerprint.go", `data.ConnectionState.NegotiatedProtocol == "h2"`, `data.ConnectionState.NegotiatedProtocol != ""`, "C03.R5", "h2 guard loosened"},
+	// C04
+	{"C04", "pkg/hack/hajack_clienthello_conn.go", "c.hijackClientHello(b[:n])", "c.hijackClientHello(b)", "C04.R2", "whole buffer teed"},
+	{"C04", "pkg/hack/hajack_clienthello_conn.go", "c.buf.Truncate(int(c.expectedLen))", "_ = c.expectedLen", "C04.R3", "surplus bytes not truncated"},
+	{"C04", "pkg/hack/hajack_clienthello_conn.go", "c.expectedLen = recordHeaderLen + handshakeLen", "c.expectedLen = handshakeLen", "C04.R4", "record header not counted"},
+	{"C04", "pkg/hack/hajack_clienthello_conn.go", "if recType != recordTypeHandshake {", "if false {", "C04.R4", "record type unchecked"},
+	// C05
+	{"C05", "pkg/reverseproxy/handler.go", "r.Out.Header.Del(k)\n", "", "C05.R1", "client value not deleted"},
+	{"C05", "pkg/reverseproxy/handler.go", "r.Out.Header.Set(k, v)", "r.Out.Header.Add(k, v)", "C05.R", "Add instead of Set"},
+	{"C05", "pkg/reverseproxy/handler.go", "f.reverseProxy.Rewrite = f.rewriteFunc", "f.reverseProxy.Director = func(*http.Request) {}", "C05.R4", "Director mode"},
+	// C06
+	{"C06", "pkg/metadata/context.go", "func NewContext(ctx context.Context) (context.Context, *Metadata) {\n\tmd := &Metadata{}", "var sharedMD = &Metadata{}\n\nfunc NewContext(ctx context.Context) (context.Context, *Metadata) {\n\tmd := sharedMD", "C06.R", "one record shared by all connections"},
+	{"C06", "pkg/proxyserver/proxyserver.go", "ctx, md := metadata.NewContext(server.ctx)\n\t\tmd.ClientHelloRecord = rec", "ctx, md := metadata.NewContext(server.ctx)\n\t\tserver.ctx = ctx\n\t\tmd.ClientHelloRecord = rec", "C06.R", "per-connection context stored on the shared server"},
+	{"C06", "pkg/proxyserver/proxyserver.go", "md.ConnectionState = cs\n", "md.ConnectionState = tls.ConnectionState{NegotiatedProtocol: cs.NegotiatedProtocol}\n", "C06.R4", "record's ConnectionState not this connection's"},
+	// C07
+	{"C07", "pkg/metadata/http2.go", "f.RLock()\n\tdefer f.RUnlock()\n", "", "C07.R1", "Marshal without the read lock"},
+	{"C07", "pkg/http2/server.go", "md.HTTP2Frames.Lock()\n\t\t\tmd.HTTP2Frames.Priorities = append(md.HTTP2Frames.Priorities, metadata.Priority{", "md.HTTP2Frames.RLock()\n\t\t\tmd.HTTP2Frames.Priorities = append(md.HTTP2Frames.Priorities, metadata.Priority{", "C07.R1", "store under a read lock"},
+	// C08
+	{"C08", "pkg/reverseproxy/handler.go", "if f.PreserveHost {", "if !f.PreserveHost {", "C08.R1", "PreserveHost inverted"},
+	{"C08", "pkg/reverseproxy/handler.go", "r.SetURL(f.To)", "r.SetURL(f.To)\n\tr.Out.Header.Del(\"Accept-Encoding\")", "C08.R1", "strips a client header"},
+	{"C08", "pkg/http2/server.go", "\terrChanPool.Put(ch)\n\tif frameWriteDone {", "\tif frameWriteDone {", "C08.R", "completion channel no longer recycled (deviation from upstream)"},
+	// C09
+	{"C09", "pkg/reverseproxy/handler.go", "r.Out.Header[\"X-Forwarded-For\"] = r.In.Header[\"X-Forwarded-For\"]\n\tr.SetXForwarded()", "r.SetXForwarded()\n\tr.Out.Header[\"X-Forwarded-For\"] = r.In.Header[\"X-Forwarded-For\"]", "C09.R1", "re-attach after SetXForwarded"},
+	{"C09", "pkg/proxyserver/proxyserver.go", "if r.TLS == nil {", "if r.ProtoMajor < 2 && r.TLS == nil {", "C09.R3", "TLS compensator limited to HTTP/1"},
+	// C10
+	{"C10", "pkg/proxyserver/proxyserver.go", "\tdefer func() {\n\t\tif r := recover(); r != nil {\n\t\t\tserver.logf(\"panic serving %s: %v\", conn.RemoteAddr(), r)\n\t\t}\n\t}()\n", "\tdefer recover()\n", "C10.R1", "inert defer recover()"},
+	{"C10", "pkg/proxyserver/proxyserver.go", "server.logf(\"tls handshake error (%s): %s\", conn.RemoteAddr(), err)", "log.Fatalf(\"tls handshake error (%s): %s\", conn.RemoteAddr(), err)", "C10.R3", "log.Fatalf on a connection path"},
+	{"C10", "pkg/http2/frame.go", "if len(p)-int(padLength) < 0 {", "if false {", "C10.R7", "padding check removed"},
+	// C11
+	{"C11", "pkg/proxyserver/proxyserver.go", "\tdefer conn.Close()\n", "", "C11.R1", "connection not closed on exit"},
+	{"C11", "pkg/hack/channel_listener.go", "\tselect {\n\tcase ln.channel <- conn:\n\tcase <-ln.context.Done():\n\t\t// the listener is closed, nobody is going to accept this\n\t\t// connection any more: close it instead of blocking forever\n\t\tconn.Close()\n\t}", "\tln.channel <- conn", "C11.R6", "bare send in the hand-off"},
+	{"C11", "pkg/proxyserver/proxyserver.go", "server.HTTP2Server.IdleTimeout = server.HTTPServer.IdleTimeout", "_ = server.HTTPServer.IdleTimeout", "C11.R4", "h2 idle timeout not inherited"},
+	// C12
+	{"C12", "pkg/http2/server.go", "sc.sendWindowUpdate(nil, int(f.Length)) // conn-level", "_ = f.Length // conn-level", "C12.R", "discarded DATA not refunded"},
+	{"C12", "pkg/http2/flow.go", "\tif n > uint32(f.avail) {\n\t\treturn false\n\t}\n\tf.avail -= int32(n)", "\tif n > uint32(f.avail)+1 {\n\t\treturn false\n\t}\n\tf.avail -= int32(n)", "C12.R", "take tolerates an overrun"},
+	// C13
+	{"C13", "pkg/http2/server.go", "if id <= sc.maxClientStreamID {", "if id < sc.maxClientStreamID {", "C13.R", "stream id reuse accepted"},
+	{"C13", "pkg/http2/server.go", `return sc.countError("closed", streamError(id, ErrCodeStreamClosed))`, `return sc.countError("closed", streamError(id, ErrCodeProtocol))`, "C13.R5", "wrong error code"},
+	// C14
+	{"C14", "pkg/certwatcher/certwatcher.go", "\tcw.Lock()\n\tcw.currentCert = &cert\n\tcw.Unlock()", "\tcw.currentCert = &cert", "C14.R1", "swap without the lock"},
+	{"C14", "pkg/certwatcher/certwatcher.go", "tls.LoadX509KeyPair(cw.certPath, cw.keyPath)", "tls.LoadX509KeyPair(cw.keyPath, cw.certPath)", "C14.R2", "cert/key paths swapped"},
+	{"C14", "fingerproxy.go", "GetCertificate: cw.GetCertificate,", "GetCertificate: cw.GetCertificate,\n\t\tCertificates:   []tls.Certificate{},", "C14.R4", "static certificates set"},
+	// C15
+	{"C15", "pkg/reverseproxy/handler.go", `strings.HasPrefix(r.UserAgent(), "kube-probe/")`, `strings.Contains(r.UserAgent(), "kube-probe/")`, "C15.R2", "Contains instead of HasPrefix"},
+	{"C15", "pkg/reverseproxy/handler.go", "w.Write([]byte(ProbeResponse))\n\t\treturn", "w.Write([]byte(ProbeResponse))", "C15.R1", "probe also forwarded"},
+	// C16
+	{"C16", "pkg/proxyserver/proxyserver.go", "server.logf(\"could not read client hello (%s): %s\", conn.RemoteAddr(), err)\n\t\tserver.metricsRequestsTotalInc(\"0\", \"\")", "server.logf(\"could not read client hello (%s): %s\", conn.RemoteAddr(), err)", "C16.R1", "capture failure not counted"},
+	{"C16", "pkg/proxyserver/proxyserver.go", `server.metricsRequestsTotalInc("1", cs.NegotiatedProtocol)`, `server.metricsRequestsTotalInc("1", "h2")`, "C16.R2", "protocol label constant"},
+	// C17
+	{"C17", "pkg/proxyserver/proxyserver.go", "server.inShutdown.Store(true)\n\t\tserver.HTTPServer.Shutdown(context.Background())\n\t\tln.Close()", "ln.Close()\n\t\tserver.inShutdown.Store(true)\n\t\tserver.HTTPServer.Shutdown(context.Background())", "C17.R1", "listener closed before inShutdown"},
+	{"C17", "pkg/proxyserver/proxyserver.go", "return tlsConn.HandshakeContext(server.ctx)", "return tlsConn.HandshakeContext(context.Background())", "C17.R3", "handshake ignores the server context"},
+	// C18
+	{"C18", "pkg/http2/hpack/hpack.go", "\tdt.size += f.Size()\n\tdt.evict()\n", "\tdt.size += f.Size()\n", "C18.R", "no eviction after add"},
+	{"C18", "pkg/http2/hpack/static_table.go", `{name: ":status", value: "204"}:                   9,`, `{name: ":status", value: "205"}:                   9,`, "C18.R1", "static table entry changed"},
+	// C19
+	{"C19", "pkg/http2/frame.go", "if fh.Length > fr.maxReadSize {", "if fh.Length > fr.maxReadSize+1 {", "C19.R", "read limit off by one"},
+	{"C19", "pkg/http2/frame.go", "if len(p) != 4 {\n\t\tcountError(\"frame_windowupdate_bad_len\")", "if len(p) < 4 {\n\t\tcountError(\"frame_windowupdate_bad_len\")", "C19.R3", "WINDOW_UPDATE length check loosened"},
+	// C20
+	{"C20", "pkg/http2/writesched_roundrobin.go", "if !ws.control.empty() {", "if false {", "C20.R", "control frames not first"},
+	{"C20", "pkg/http2/writesched.go", "\tcase 2:\n\t\tq.s[0] = rest", "\tcase 2:\n\t\t_ = rest\n\t\tq.shift()", "C20.R1", "split frame's rest dropped"},
+}
+
+var runWitnesses = runWitnessesImpl
+
+func runWitnessesImpl(res *runResult, prop, repo string) {
+	var ws []witness
+	for _, w := range witnesses {
+		if w.Prop == prop {
+			ws = append(ws, w)
+		}
+	}
+	type outcome struct {
+		W      witness
+		Status string
+		Hits   []string
+	}
+	outs := make([]outcome, len(ws))
+	exe, _ := os.Executable()
+	tmpdir, _ := os.MkdirTemp("", "fpwit.")
+	defer os.RemoveAll(tmpdir)
+	var wg sync.WaitGroup
+	sem := make(chan struct{}, 8)
+	for k, w := range ws {
+		k, w := k, w
+		wg.Add(1)
+		go func() {
+			defer wg.Done()
+			sem <- struct{}{}
+			defer func() { <-sem }()
+			outs[k].W = w
+			path := filepath.Join(repo, w.File)
+			b, err := os.ReadFile(path)
+			if err != nil || !strings.Contains(string(b), w.Old) {
+				outs[k].Status = "skipped (anchor text not in the current tree)"
+				return
+			}
+			mod := strings.Replace(string(b), w.Old, w.New, 1)
+			tf := filepath.Join(tmpdir, fmt.Sprintf("w%d.go", k))
+			os.WriteFile(tf, []byte(mod), 0o644)
+			cmd := exec.Command(exe, "-property", prop, "-repo", repo, "-no-evidence", "-tier", "quick", "-overlay", path+"="+tf)
+			cmd.Env = append(os.Environ(), "VERIF_TIER=quick")
+			out, _ := cmd.CombinedOutput()
+			killed := false
+			for _, ln := range strings.Split(string(out), "\n") {
+				if strings.HasPrefix(ln, "WITNESS-HIT ") {
+					f := strings.Fields(ln)
+					if len(f) >= 3 {
+						outs[k].Hits = append(outs[k].Hits, f[2])
+						if strings.HasPrefix(f[2], w.Rule) {
+							killed = true
+						}
+					}
+				}
+				if strings.HasPrefix(ln, "WITNESS-FATAL") {
+					outs[k].Status = "not applicable (edited tree does not type-check)"
+				}
+			}
+			if outs[k].Status == "" {
+				if killed {
+					outs[k].Status = "killed"
+				} else if len(outs[k].Hits) > 0 {
+					outs[k].Status = "killed by other rules"
+				} else {
+					outs[k].Status = "SURVIVED"
+				}
+			}
+			sort.Strings(outs[k].Hits)
+			outs[k].Hits = uniq(outs[k].Hits)
+		}()
+	}
+	wg.Wait()
+	applied, killed, skipped := 0, 0, 0
+	var list []map[string]any
+	for _, o := range outs {
+		switch {
+		case strings.HasPrefix(o.Status, "skipped"), strings.HasPrefix(o.Status, "not applicable"):
+			skipped++
+		default:
+			applied++
+			if strings.HasPrefix(o.Status, "killed") {
+				killed++
+			}
+		}
+		list = append(list, map[string]any{"file": o.W.File, "edit": o.W.What, "expected_rule": o.W.Rule, "status": o.Status, "rules_fired": o.Hits})
+		if o.Status == "SURVIVED" {
+			fmt.Printf("WARNING: sensitivity witness survived: %s %s (%s)\n", prop, o.W.What, o.W.File)
+		}
+	}
+	res.Extra["witnesses_applied"] = applied
+	res.Extra["witnesses_killed"] = killed
+	res.Extra["witnesses_skipped"] = skipped
+	res.Extra["witnesses"] = list
+}
